@@ -26,6 +26,19 @@ struct SegClass {
         p.set("mode", cfg.chance(large ? 950 : 700) ? "par" : "seq");
         sim::Env e = env_from_plan(p);
         std::string sig = gen_keys_into<K>(p, n, std::max<size_t>(eps, 1), chunks_for(e, n), cfg, work);
+        if constexpr (std::is_floating_point_v<K>) {
+            // wide magnitudes (builder only): a few keys close to the ends of the finite range next to ordinary data, so that
+            // key differences times rank differences need the range of the builder's long double arithmetic
+            if (cfg.chance(300) && p.keys.size() >= 3) {
+                static const long double f[] = {0.95L, 0.5L, 1e-1L, 1e-3L};
+                long double big = (long double) std::numeric_limits<K>::max() * f[cfg.below(4)];
+                if (cfg.coin()) p.keys.front() = -big;
+                if (cfg.coin()) p.keys.back() = big;
+                if (cfg.chance(300) && p.keys.size() >= 5) { p.keys[1] = -big / 2; p.keys[p.keys.size() - 2] = big / 2; }
+                for (size_t i = 1; i < p.keys.size(); ++i) if (p.keys[i] < p.keys[i - 1]) p.keys[i] = p.keys[i - 1];
+                sig += "wide+";
+            }
+        }
         p.set("motifs", sig + "eps" + std::to_string(eps));
         p.set("sched2", large && cfg.chance(300) ? (env.next() >> 1) | 1 : 0);
         if (g.prop == "C20") { // the invalid argument is the injected fault: its position inside the segment is drawn here
